@@ -67,6 +67,8 @@ type Config struct {
 	// GQualified: some accesses to variables are written `_G.name` (always the global of that name,
 	// whatever local is visible); the name token is then a field (Var == VarNone)
 	GQualified bool
+	// AritySlack: assignments may have fewer or more values than targets
+	AritySlack bool
 	// BlockReturn: any block (not only function bodies) may end in `return [explist] [;]`
 	BlockReturn bool
 }
@@ -736,6 +738,12 @@ func (g *Gen) assignStat() {
 		}
 	}
 	nv := n
+	if g.cfg.AritySlack && !g.cfg.Patterns && g.intn(5, "aritySlack") == 0 {
+		nv = n + 1
+		if n > 1 && g.intn(3, "aritySlackLess") > 0 {
+			nv = n - 1
+		}
+	}
 	if g.cfg.Patterns && g.intn(4, "arity") == 0 {
 		nv = n + 1
 		if n > 1 && g.intn(2, "arityLess") == 0 {
